@@ -174,6 +174,13 @@ func Main(m *testing.M, id, level, rule string, assumptions ...string) {
 	_ = flag.Set("rapid.nofailfile", "true")
 	R = r
 	code := m.Run()
+	// a native fuzz campaign (coordinator and workers run TestMain too) must not write evidence
+	if f := flag.Lookup("test.fuzz"); f != nil && f.Value.String() != "" {
+		os.Exit(code)
+	}
+	if f := flag.Lookup("test.fuzzworker"); f != nil && f.Value.String() == "true" {
+		os.Exit(code)
+	}
 	r.finish(code)
 }
 
